@@ -200,6 +200,12 @@ def vh(args, work, timeout=3600):
     if os.path.exists(hang) and os.path.getsize(hang) > 0:
         stats["hang"] = [json.loads(l) for l in open(hang)]
         for h in stats["hang"]:
+            if h.get("kind") == "probe_failed":
+                log("PROBE-FAILED (vh %s): %s - the mechanism spec's hashing model does not describe this code; this replay is skipped (drift, not a verdict)"
+                    % (" ".join(args[:2]), h.get("msg")))
+                stats["probe_failed"] = True
+                HANGS.append({"args": list(args), "work": work, "hang": h, "handled": True, "probe": True})
+                continue
             log("%s (vh %s): %s" % ("PANIC while the harness observed the object" if h.get("kind") == "panic_in_observation" else "HANG: the code under test did not return",
                                     " ".join(args[:2]), json.dumps(h)[:400]))
             HANGS.append({"args": list(args), "work": work, "hang": h, "handled": False})
@@ -210,6 +216,8 @@ def split_records(path, work, chunks, prefix):
     """Split an ndjson record file into `chunks` files.  Header lines ("k":"hdr") may occur
     anywhere (one per scenario); every chunk starts with the header in force at its first record.
     Returns ([(file, number_of_lines)], number_of_non_header_records)."""
+    if not os.path.exists(path):
+        return [], 0          # the harness run was ended before it wrote anything (probe failure / hang)
     with open(path) as f:
         lines = f.readlines()
     nrec = sum(1 for l in lines if '"k":"hdr"' not in l)
@@ -285,10 +293,16 @@ def mvalidate(tspec, constants, mfile, work, parallel=8, timeout=3600, quiet=Fal
         outp, rc, secs = tlc(tspec, cfg, work, env={"TRACE": fn}, workers=1, timeout=timeout, xmx="3g", dfs=True)
         txt = open(outp, errors="replace").read()
         m = re.search(r'<<"CHECKED", (\d+), (\d+)>>', txt)
+        found = [int(x) for x in re.findall(r'<<"MDRIFT", (\d+)>>', txt)]
         if rc != 0 or not m or int(m.group(1)) != cnt:
-            raise ToolError("trace spec %s did not consume all records of %s (rc=%d)\n%s" % (tspec, fn, rc, txt[-3000:]))
+            # the mechanism spec could not even evaluate a record (e.g. a position outside the table): everything it did
+            # not get to counts as not reproduced - M-level conformance is never a verdict and never a tool failure
+            done = int(m.group(1)) if m else 0
+            log("[E3/M] %s stopped after %d of %d records of %s (rc=%d): the rest counts as drift; TLC said: %s"
+                % (tspec, done, cnt, os.path.basename(fn), rc, " ".join(txt[-400:].split())[-300:]))
+            return cnt, found + [-1] * max(1, cnt - done - len(found))
         os.remove(fn)
-        return cnt, [int(x) for x in re.findall(r'<<"MDRIFT", (\d+)>>', txt)]
+        return cnt, found
 
     t = time.time()
     n, drift = total, []
